@@ -40,7 +40,7 @@ BATTERY = [None, {"a": 1}, {"a": {"$gt": 0}}, {"b": {"$exists": True}}, {"a": {"
 
 ALPHA = [
     ["init", 0], ["init", 1], ["remove", 0], ["rekey", 0, 2], ["rekey", 1, 0], ["update_cache", "A"],
-    ["update_cache", "fresh"], ["restart"], ["delcache"],
+    ["update_cache", "fresh"], ["restart"], ["delcache"], ["reassign", 0],
 ]
 
 
@@ -54,6 +54,8 @@ def rand_op(rng):
         return ["rekey", rng.randrange(8), rng.randrange(len(UNIVERSE))]
     if r < 0.68:
         return ["assign", rng.randrange(8), rng.randrange(len(UNIVERSE))]
+    if r < 0.72:
+        return ["reassign", rng.randrange(8)]  # job.statepoint = <the value it already has>: a re-key onto itself
     if r < 0.84:
         return ["update_cache", rng.choice(["A", "B", "fresh"])]
     if r < 0.92:
@@ -309,12 +311,12 @@ def run_case(ctx, case):
                 jid = sorted(m)[op[1] % len(m)]
                 A.open_job(id=jid).remove()
                 del m[jid]
-        elif kind in ("rekey", "assign"):
+        elif kind in ("rekey", "assign", "reassign"):
             if m:
                 jid = sorted(m)[op[1] % len(m)]
-                new = UNIVERSE[op[2]]
+                new = copy.deepcopy(m[jid]) if kind == "reassign" else UNIVERSE[op[2]]
                 nid = model.model_id(new)
-                if nid in m:
+                if nid in m and kind != "reassign":
                     continue
                 job = A.open_job(id=jid)
                 old = m[jid]
@@ -322,7 +324,7 @@ def run_case(ctx, case):
 
                 if _has_equal_typed_conflict(old, new):
                     continue  # C04's typed-equal finding
-                if kind == "assign" or set(old) != set(new):
+                if kind in ("assign", "reassign") or set(old) != set(new):
                     job.statepoint = copy.deepcopy(new)
                 else:
                     for k, v in new.items():
